@@ -186,7 +186,8 @@ def run_family(ctx, cases, prop):
     if prop in ("C01", "C07") and cases is None:
         rng3 = random.Random(ctx.seed + 17)
         pick2 = set(rng3.sample(texts, min(len(texts), 250 if ctx.quick else 5000))) | set(rewrite.FORMS + rewrite.EQ_FORMS + rewrite.SHARED_ID_FORMS + rewrite.SHARED_ID_EQ_FORMS)
-        jobs = [(t, False, False, 3 if t in pick2 else 0) for t in texts]
+        special2 = set(rewrite.FORMS + rewrite.EQ_FORMS)
+        jobs = [(t, False, False, (8 if t in special2 else 3) if t in pick2 else 0) for t in texts]
         res.rule += "; for the special forms and a sample of %d texts also: find_nodes() of every rule on one tree, a first step applied in place, then every rule at every node of that very tree" % len(pick2)
     elif prop in ("C01", "C07"):
         jobs = [(t, False, False, 6) for t in texts]
